@@ -15,6 +15,11 @@ def tfl():
     import tensorflow_lattice as tfl_  # pylint: disable=g-import-not-at-top
     assert os.path.realpath(tfl_.__file__).startswith(os.path.realpath(repo)), tfl_.__file__
     tf.get_logger().setLevel("ERROR")
+    try:
+      from absl import logging as absl_logging  # pylint: disable=g-import-not-at-top
+      absl_logging.set_verbosity(absl_logging.ERROR)
+    except Exception:  # pylint: disable=broad-except
+      pass
     _state["tf"] = tf
     _state["tfl"] = tfl_
   return _state["tf"], _state["tfl"]
